@@ -495,7 +495,7 @@ def run(tier, seed, only=None):
         bt.start()
         # (mode, fields, L, excluded known class or None)
         if not thorough:
-            cfgs = [(1, 1, 1, None), (0, 1, 3, None), (0, 2, 2, None)]
+            cfgs = [(1, 1, 2, None), (0, 1, 3, None), (0, 2, 2, None)]   # rfc4180 at L=2: quote/newline adjacency needs two bytes
         else:
             cfgs = [(1, 1, 2, None), (1, 2, 1, None), (0, 1, 5, None), (0, 2, 3, None), (0, 3, 2, None),
                     (2, 1, 4, None), (2, 2, 2, None), (3, 1, 3, None), (3, 2, 2, None)]
